@@ -60,27 +60,27 @@ CLAIMED = {
         note=S_NOTE, technique="translation validation keyed by declared opset: symbolic ONNX semantics, z3 equivalence"),
     "C12": dict(
         category="other", design_ref="§5 C12", engine="Z+X",
-        text="(Z) for every promotion pipeline observed on the real front ends (python type -> constant dtype -> cast target), z3 QF_FP/BV at full bit width is asked for a Python float/int on which two front ends produce bitwise different tensors, and for two literals that share a GraphBuilder cache key but differ in bits (key relation probed on the real builder). (X) CrossHair differential lemma: autocast.cast_inputs and BuilderBase._cast_inputs choose the same cast target on abstract signatures. (A) registry-exhaustive enumeration, labelled: 260 schemas x positions x literals x sibling dtypes through the three real front ends at unit level.",
+        text="(Z) for every promotion pipeline observed on the real front ends (python type -> constant dtype -> cast target), z3 QF_FP/BV at full bit width is asked for a Python float/int on which two front ends produce bitwise different tensors, and for two literals that share a GraphBuilder cache key but differ in bits (key relation probed on the real builder). (X) CrossHair differential lemma: autocast.cast_inputs and BuilderBase._cast_inputs choose the same cast target on abstract signatures; cache lemma on the real GraphBuilder._get_or_create_constant: two literals (11 kinds: scalars, 1-3 element lists, tuples x 4 payloads), 5 dtypes, root/child builder and order are solver variables concretised by comparison forks; each returned tensor must be exactly np.asarray(literal, dtype). (A) registry-exhaustive enumeration, labelled: 260 schemas x positions x literals x sibling dtypes through the three real front ends at unit level.",
         note="Trusted: z3 FP/BV theory; pipeline models validated against numpy conversions on concrete literals at every run; CrossHair models. Part (A) is enumeration over the installed schema registry.",
         technique="z3 floating-point/bit-vector queries over pipeline models extracted from the real front ends + CrossHair differential lemma + registry enumeration"),
     "C13": dict(
         category="translation_validation", design_ref="§5 C13", engine="S+X",
-        text="For typed models from the script corpus (incl. adversarially renamed values: dots, digits, keywords, names colliding after clean-up) and tensor-typed generated models x export options: the generated source must compile, decorate, keep the signature, and symonnx + z3 decide [[roundtrip]] == [[original]] for ALL inputs (initializer-inputs symbolic). (X) CrossHair lemmas on the naming helpers (identifier-ness, idempotence, injectivity of the short mapper, attribute-conflict renamer).",
+        text="For typed models from the script corpus (incl. adversarially renamed values: dots, digits, keywords, names colliding after clean-up) and tensor-typed generated models x export options: the generated source must compile, decorate, keep the signature, and symonnx + z3 decide [[roundtrip]] == [[original]] for ALL inputs (initializer-inputs symbolic). (X) CrossHair lemmas on the naming helpers (identifier-ness, idempotence, injectivity and stability of the short mapper and of the unique-name mapper over 3/4 requests from tables with triple collisions and generated-suffix names, attribute-conflict renamer).",
         note=S_NOTE + " skip_initializers output is checked for syntax only.", technique="translation validation of the proto2python round trip: symbolic ONNX semantics, z3 equivalence; CrossHair lemmas on helpers"),
     "C14": dict(
         category="other", design_ref="§5 C14", engine="X",
-        text="(a) hash randomisation as a schedule: converter/analysis re-executed with every set iteration order chosen by CrossHair; FunctionProto bytes must not depend on it; confirmed with real PYTHONHASHSEED subprocesses. (b) histories as arbitrary pre-state: per-match fields of rule singletons (AST-discovered each run) havocked with symbolic values before rewrite(); bytes must equal the fresh-object run. (c) concrete probe: repeated to_model_proto, post-decoration rebinding of globals.",
+        text="(a) hash randomisation as a schedule: converter/analysis re-executed with every set iteration order chosen by CrossHair; FunctionProto bytes must not depend on it; confirmed with real PYTHONHASHSEED subprocesses. (b) histories as arbitrary pre-state: per-match fields of rule singletons (AST-discovered each run) havocked with symbolic values before rewrite(); bytes must equal the fresh-object run. (d) histories of whole transformations: a symbolic history (1 model quick, 2 thorough) and a symbolic target from a 30-model table (10 operator kinds x opsets 11/13/18) go through optimize / convert_version / proto2python in one process; the target bytes must equal the fresh-process baseline (subprocess per pair); indices concretised by comparison forks, the transformation runs concretely. (c) concrete probe: repeated to_model_proto, post-decoration rebinding of globals.",
         note="Trusted: CrossHair; order cut applied in memory by vp/loader.py; <=4 schedule choices per translation; 4 rule targets. Narrow: file system / time / other processes not modelled.",
-        technique="symbolic execution (CrossHair+z3) with solver-chosen set-iteration schedules and havocked singleton state; PYTHONHASHSEED replay"),
+        technique="symbolic execution (CrossHair+z3) with solver-chosen set-iteration schedules, havocked singleton state and solver-partitioned transformation histories vs fresh-process baselines; PYTHONHASHSEED replay"),
     "C18": dict(
-        category="translation_validation", design_ref="§5 C18", engine="S",
-        text="Seeded random traces through the real GraphBuilder/OpBuilder (literals in every position, _outputs, module scopes, If subgraphs capturing outer values) are shadowed by a symbolic replay that applies symonnx's rule per call with the property's own promotion rule; z3 decides [[built graph]] == replay for ALL inputs, and [[call]] == [[call_inline]] for script functions with attribute arguments. Naming of values/nodes and nn module trees (depth<=4) is enumeration, labelled.",
-        note=S_NOTE, technique="translation validation of traced graphs against a symbolic shadow replay; z3 equivalence; structural enumeration for names"),
+        category="translation_validation", design_ref="§5 C18", engine="S+X",
+        text="Seeded random traces through the real GraphBuilder/OpBuilder (literals in every position, _outputs, module scopes, If subgraphs capturing outer values) are shadowed by a symbolic replay that applies symonnx's rule per call with the property's own promotion rule; z3 decides [[built graph]] == replay for ALL inputs, and [[call]] == [[call_inline]] for script functions with attribute arguments. Naming: (X) nn construction histories of <=4 (quick) / 5 (thorough) steps over 10 step kinds (create list / list with children / sequential, nest, attach to a named or unnamed root, append/extend after naming, slice) are solver variables concretised by comparison forks; every Parameter must appear once as the initializer root.name + state_dict key and be the Parameter object, names unique, checker passes. Random module trees (depth<=4) and value/node naming of traces are enumeration, labelled.",
+        note=S_NOTE, technique="translation validation of traced graphs against a symbolic shadow replay; z3 equivalence; CrossHair-partitioned construction histories for module naming; structural enumeration for names"),
     "C20": dict(
         category="other", design_ref="§5 C20", engine="X",
-        text="CrossHair/z3 symbolic execution of the real save_model_with_external_data with ir.save stubbed: which initializers are uninitialised, path shape, verbose/tqdm and whether the save faults are solver variables; refusal-before-write, single call with <basename>.data, exception propagation and object identity of the initializers are decided over all combinations. Narrow: what onnx_ir.save does per file-system call is outside the claim.",
-        note="Trusted: CrossHair models; ir.save replaced by a recording stub (onnx_ir is an installed package, I/O not encodable); <=3 initializers, 8 path shapes.",
-        technique="symbolic execution (CrossHair+z3) of the real function with a faulting stub for ir.save, vacuity twins"),
+        text="CrossHair/z3 symbolic execution of the real save_model_with_external_data with ir.save stubbed: which initializers are uninitialised, path shape, verbose/tqdm and whether the save faults are solver variables; refusal-before-write, single call with <basename>.data, exception propagation and object identity of the initializers are decided over all combinations. Second group: the real onnx_ir.save runs under the wrapper in a scratch directory; initializer kinds (in-memory small/large/zero-size/scalar/uint8, already external elsewhere, already external in the destination) and the index of the write-side file-system operation (open/write/flush/close) that raises OSError are solver variables concretised by comparison forks; identity, external references, bytes and serialized structure of the in-memory model afterwards, and the ir.load round trip on success, are checked per instance.",
+        note="Trusted: CrossHair models; group 1: ir.save replaced by a recording stub, <=3 initializers, 8 path shapes; group 2: open() proxies are the only stubs, <=2 (quick) / 3 (thorough) initializers, one fault per run, rename/fsync not used by the installed onnx_ir; the instance space is finite and explored exhaustively through solver-decided forks, the code under the forks runs concretely (protobuf / NumPy / file I/O are C boundaries).",
+        technique="symbolic execution (CrossHair+z3) of the real function with a faulting stub for ir.save; solver-partitioned fault-point and tensor-kind space over the real save; vacuity twins"),
     "C11": dict(
         category="other", design_ref="§5 C11",
         text="CrossHair/z3 symbolic execution of the real Tensor.__getitem__ and of the subgraphs the real converter emits per index form: for ALL dims>=0, start/stop in Z u {None}, integer and scalar-tensor indices (unbounded ints) the ONNX-spec meaning equals NumPy's, or is an error; forms, rank<=3 and step tables are enumerated. Bounded in structure, unbounded in values.",
